@@ -3,6 +3,7 @@ import DinoProofs.Lemmas.Fx
 import DinoProofs.Lemmas.SHCert
 import DinoProofs.Lemmas.SHFast
 import DinoProofs.Lemmas.Legendre
+import DinoProofs.Lemmas.FourierOrtho
 import Dino.SHCheck
 import DinoGen.SHCert
 import Mathlib.Analysis.Real.Pi.Bounds
@@ -19,6 +20,9 @@ import Mathlib.Algebra.Order.BigOperators.Ring.Finset
   (`DinoGen/SHCert_*.lean`, `decide +kernel`) implies the hypothesis of T1.2 for the basis arrays
   the implementation actually computed (as exact rationals).
 * `roundtrip_of_cert`: the three combined.
+* T1.5 (`Lemmas/FourierOrtho.lean`, section "T1.5" below): over `ℝ` the model's real Fourier basis is orthonormal under
+  the trapezoid weights for EVERY `N ≥ 1`, `M ≥ 1` iff `2 (M − 1) < N`; hence the round trip reduces to the
+  orthonormality of the Legendre tables under the latitude weights alone (both layouts, any padding).
 -/
 namespace Dino.C01
 open Finset Dino.Lin Dino.SH Dino
@@ -638,5 +642,232 @@ example : ∀ r l, r < g1.R → l < g1.L →
     | r' + 2, _ => simp [ent2]
 
 end generated
+
+
+/-! ## T1.5 — the longitude direction, every size (`Lemmas/FourierOrtho.lean`)
+
+The statements below are phrased on the model functions `SH.realBasis?`, `SH.realBasisZeroImag?`,
+`SH.buildReal`, `SH.buildFast` (the ones the correspondence compares with `fourier.real_basis`,
+`fourier.real_basis_with_zero_imag` and the two `basis` properties) instantiated with the real `cos`, `sin`,
+`sqrt`, `π`; the weight `(1 + 1)·π/N` is `fourier.quadrature_nodes(N)[1]`.  `longitude_offset` does not enter
+the basis (it only labels the nodes). -/
+
+section fourier
+open Dino.FourierOrtho
+
+/-- **T1.5** for every `M ≥ 1` and every `N` accepted by `real_basis` (`N ≥ M`): the columns of
+ `fourier.real_basis(M, N)` are orthonormal under the weight `2π/N` **iff** `2 (M − 1) < N` -/
+theorem fourier_orthonormal_iff (M N : ℕ) (hM : 1 ≤ M) (f : List (List ℝ))
+    (hf : SH.realBasis? Real.cos Real.sin Real.sqrt Real.pi M N = some f) :
+    (∀ r < 2 * M - 1, ∀ r' < 2 * M - 1,
+        (1 + 1) * Real.pi / N * ∑ i ∈ range N, ent2 f i r * ent2 f i r' = if r = r' then 1 else 0)
+      ↔ 2 * (M - 1) < N := by
+  rw [realBasis?_real] at hf
+  by_cases h : N < M
+  · rw [if_pos h] at hf; exact absurd hf (by simp)
+  · rw [if_neg h] at hf
+    obtain rfl := Option.some.inj hf
+    exact gram_real_identity_iff M N (by omega) hM
+
+/-- **T1.5, finer:** column `r'` (wavenumber `(r'+1)/2`) is a unit vector orthogonal to all others as soon
+ as `(r'+1)/2 + (M − 1) < N` — the rule `resolved_mask` of the harness / `resolvedRealMask` of the model -/
+theorem fourier_column_orthonormal (M N : ℕ) (hM : 1 ≤ M) (f : List (List ℝ))
+    (hf : SH.realBasis? Real.cos Real.sin Real.sqrt Real.pi M N = some f)
+    (r' : ℕ) (hr' : r' < 2 * M - 1) (hres : (r' + 1) / 2 + (M - 1) < N) (r : ℕ) :
+    (1 + 1) * Real.pi / N * ∑ i ∈ range N, ent2 f i r * ent2 f i r' = if r = r' then 1 else 0 := by
+  rw [realBasis?_real] at hf
+  by_cases h : N < M
+  · rw [if_pos h] at hf; exact absurd hf (by simp)
+  · rw [if_neg h] at hf
+    obtain rfl := Option.some.inj hf
+    exact gram_real_col M N (by omega) hM r' hr' hres r
+
+/-- **T1.5, zero-imag layout:** under `2 (M − 1) < N` the Gram matrix of
+ `fourier.real_basis_with_zero_imag(M, N)` is the identity except the structurally zero row / column 1 -/
+theorem fourier_zero_imag_orthonormal (M N : ℕ) (hM : 1 ≤ M) (h : 2 * (M - 1) < N) (f : List (List ℝ))
+    (hf : SH.realBasisZeroImag? Real.cos Real.sin Real.sqrt Real.pi M N = some f)
+    (c c' : ℕ) (hc' : c' < 2 * M) :
+    (1 + 1) * Real.pi / N * ∑ i ∈ range N, ent2 f i c * ent2 f i c'
+      = if c = c' ∧ c' ≠ 1 then 1 else 0 := by
+  rw [realBasisZeroImag?_real] at hf
+  by_cases h' : N < M
+  · rw [if_pos h'] at hf; exact absurd hf (by simp)
+  · rw [if_neg h'] at hf
+    obtain rfl := Option.some.inj hf
+    exact gram_zeroImag_identity M N (by omega) hM h c c' hc'
+
+/-- **the aliasing counterexample at the boundary** `N = 2 (M − 1)`, `M = m + 2 ≥ 2`: the guard of `real_basis`
+ accepts these sizes (`2 (m + 1) ≥ m + 2`), but the cosine column of the top wavenumber `M − 1 = N/2` has squared
+ norm 2 and its sine column has squared norm 0 (it vanishes at every node) -/
+theorem fourier_aliasing_at_boundary (m : ℕ) :
+    ∃ f, SH.realBasis? Real.cos Real.sin Real.sqrt Real.pi (m + 2) (2 * (m + 1)) = some f ∧
+      (1 + 1) * Real.pi / (2 * (m + 1) : ℕ) * ∑ i ∈ range (2 * (m + 1)),
+          ent2 f i (2 * m + 1) * ent2 f i (2 * m + 1) = 2 ∧
+      (1 + 1) * Real.pi / (2 * (m + 1) : ℕ) * ∑ i ∈ range (2 * (m + 1)),
+          ent2 f i (2 * m + 2) * ent2 f i (2 * m + 2) = 0 := by
+  refine ⟨fReal (m + 2) (2 * (m + 1)), ?_, (gram_boundary m).1, (gram_boundary m).2⟩
+  rw [realBasis?_real, if_neg (by omega)]
+
+/-- **T1.5, 2-D (`RealSphericalHarmonics`)**: see `Dino.FourierOrtho.roundtrip_real_triangle` -/
+theorem roundtrip_real_exact_fourier (M L N J : ℕ) (xs wlat : List ℝ) (b : Basis ℝ)
+    (hb : SH.buildReal Real.cos Real.sin Real.sqrt Real.pi M L N xs wlat = some b)
+    (hM : 1 ≤ M) (hres : 2 * (M - 1) < N) (hxs : xs.length = J) (hwl : wlat.length = J)
+    (hP : ∀ m < M, ∀ l' < L, m ≤ l' → ∀ l < L,
+      ∑ j ∈ range J, ent wlat j * ent3 (Legendre.evaluate Real.sqrt M L xs) m j l
+          * ent3 (Legendre.evaluate Real.sqrt M L xs) m j l' = if l = l' then 1 else 0)
+    (x : List (List ℝ)) (hx : ∀ row ∈ x, row.length ≤ L)
+    (hsupp : ∀ r' l', l' < (r' + 1) / 2 → ent2 x r' l' = 0)
+    (r l : ℕ) (hr : r < 2 * M - 1) (hl : l < L) :
+    ent2 (realAnalysis b (2 * M - 1) J L (realSynth b J x)) r l = ent2 x r l :=
+  roundtrip_real_triangle M L N J xs wlat b hb hM hres hxs hwl hP x hx hsupp r l hr hl
+
+/-- **T1.5, 2-D (`FastSphericalHarmonics`, any padding)**: see `Dino.FourierOrtho.roundtrip_fast_triangle` -/
+theorem roundtrip_fast_exact_fourier (M L N J pn pr pj pc : ℕ) (xs wlat : List ℝ) (b : Basis ℝ)
+    (hb : SH.buildFast Real.cos Real.sin Real.sqrt Real.pi M L N xs wlat pn pr pj pc = some b)
+    (hM : 1 ≤ M) (hres : 2 * (M - 1) < N) (hpr : pr % 2 = 0) (hxs : xs.length = J)
+    (hwl : wlat.length = J)
+    (hP : ∀ m < M, ∀ l' < L, m ≤ l' → ∀ l < L,
+      ∑ j ∈ range J, ent wlat j * ent3 (Legendre.evaluate Real.sqrt M L xs) m j l
+          * ent3 (Legendre.evaluate Real.sqrt M L xs) m j l' = if l = l' then 1 else 0)
+    (x : List (List ℝ)) (hxl : x.length % 2 = 0) (hx : ∀ row ∈ x, row.length ≤ L + pc)
+    (hsupp : ∀ r' l', (r' = 1 ∨ 2 * M ≤ r' ∨ L ≤ l' ∨ l' < r' / 2) → ent2 x r' l' = 0)
+    (r l : ℕ) (hr : r < 2 * M + pr) (hl : l < L + pc) :
+    ent2 (fastAnalysis b (2 * M + pr) (J + pj) (L + pc) (fastSynth b (J + pj) x)) r l = ent2 x r l :=
+  roundtrip_fast_triangle M L N J pn pr pj pc xs wlat b hb hM hres hpr hxs hwl hP x hxl hx hsupp r l hr hl
+
+/-! ### non-vacuity -/
+
+/-- `N = 4`, `M = 2` satisfies the resolution condition: the whole 3 × 3 Gram matrix is the identity -/
+example : ∃ f, SH.realBasis? Real.cos Real.sin Real.sqrt Real.pi 2 4 = some f ∧
+    ∀ r < 3, ∀ r' < 3,
+      (1 + 1) * Real.pi / (4 : ℕ) * ∑ i ∈ range 4, ent2 f i r * ent2 f i r' = if r = r' then 1 else 0 :=
+  ⟨_, rfl, (fourier_orthonormal_iff 2 4 (by norm_num) _ rfl).2 (by norm_num)⟩
+
+/-- `N = 2`, `M = 2` is accepted by the guard but aliased (`2 (M − 1) = N`): the Gram matrix is not the identity -/
+example : ∃ f, SH.realBasis? Real.cos Real.sin Real.sqrt Real.pi 2 2 = some f ∧
+    ¬ ∀ r < 3, ∀ r' < 3,
+      (1 + 1) * Real.pi / (2 : ℕ) * ∑ i ∈ range 2, ent2 f i r * ent2 f i r' = if r = r' then 1 else 0 :=
+  ⟨_, rfl, fun h => absurd ((fourier_orthonormal_iff 2 2 (by norm_num) _ rfl).1 h) (by norm_num)⟩
+
+/-- direct evaluation, N = 4, M = 2 -/
+example : wGram (fReal 2 4) 4 1 1 = 1 := by
+  have e : ∀ i, i < 4 → ent2 (fReal 2 4) i 1 = cs 4 ((i * 1) % 4) / Real.sqrt Real.pi := by
+    intro i hi
+    match i, hi with
+    | 0, _ => rfl
+    | 1, _ => rfl
+    | 2, _ => rfl
+    | 3, _ => rfl
+    | i + 4, h => exact absurd h (by omega)
+  unfold wGram
+  rw [Finset.sum_range_succ, Finset.sum_range_succ, Finset.sum_range_succ, Finset.sum_range_one,
+    e 0 (by norm_num), e 1 (by norm_num), e 2 (by norm_num), e 3 (by norm_num)]
+  have c0 : cs 4 ((0 * 1) % 4) = 1 := by simp [cs]
+  have c1 : cs 4 ((1 * 1) % 4) = 0 := by
+    unfold cs
+    rw [show (1 + 1) * Real.pi * ((1 * 1 % 4 : ℕ) : ℝ) / ((4 : ℕ) : ℝ) = Real.pi / 2 by norm_num; ring]
+    exact Real.cos_pi_div_two
+  have c2 : cs 4 ((2 * 1) % 4) = -1 := by
+    unfold cs
+    rw [show (1 + 1) * Real.pi * ((2 * 1 % 4 : ℕ) : ℝ) / ((4 : ℕ) : ℝ) = Real.pi by norm_num; ring]
+    exact Real.cos_pi
+  have c3 : cs 4 ((3 * 1) % 4) = 0 := by
+    unfold cs
+    rw [show (1 + 1) * Real.pi * ((3 * 1 % 4 : ℕ) : ℝ) / ((4 : ℕ) : ℝ) = Real.pi / 2 + Real.pi by norm_num; ring,
+      Real.cos_add_pi, Real.cos_pi_div_two, neg_zero]
+  rw [c0, c1, c2, c3]
+  have hs : Real.sqrt Real.pi * Real.sqrt Real.pi = Real.pi := Real.mul_self_sqrt Real.pi_pos.le
+  have hp := Real.pi_pos.ne'
+  have hs0 : Real.sqrt Real.pi ≠ 0 := (Real.sqrt_pos.2 Real.pi_pos).ne'
+  field_simp
+  rw [show Real.sqrt Real.pi ^ 2 = Real.pi by rw [sq]; exact hs]
+  ring
+
+theorem q00 (x : ℝ) : ent (Legendre.row Real.sqrt 2 x 0) 0 = 1 / Real.sqrt 2 := by
+  simp [Legendre.row, Legendre.recur, Legendre.sectoral, ent]
+  norm_num
+theorem q01 (x : ℝ) : ent (Legendre.row Real.sqrt 2 x 0) 1 = Real.sqrt 3 * (x * (1 / Real.sqrt 2)) := by
+  simp [Legendre.row, Legendre.recur, Legendre.sectoral, Legendre.coefA, Legendre.coefB, ent]
+  norm_num
+theorem q10 (x : ℝ) : ent (Legendre.row Real.sqrt 2 x 1) 0 = 0 := by
+  simp [Legendre.row, Legendre.recur, Legendre.sectoral, ent]
+theorem q11 (x : ℝ) : ent (Legendre.row Real.sqrt 2 x 1) 1
+    = -Real.sqrt (3 / 2) * Real.sqrt (1 - x * x) * (1 / Real.sqrt 2) := by
+  simp [Legendre.row, Legendre.recur, Legendre.sectoral, ent]
+  norm_num
+
+/-- the hypothesis of `roundtrip_real_triangle` on the Legendre tables is satisfiable: `M = L = 2`, the three
+ nodes `sin θ = −1, 0, 1` with Simpson's weights `1/3, 4/3, 1/3` (exact for degree ≤ 3 ≥ 2(L−1)) -/
+theorem legendre_gram_example : ∀ m < 2, ∀ l' < 2, m ≤ l' → ∀ l < 2,
+    ∑ j ∈ range 3, ent ([1 / 3, 4 / 3, 1 / 3] : List ℝ) j
+        * ent3 (Legendre.evaluate Real.sqrt 2 2 [-1, 0, 1]) m j l
+        * ent3 (Legendre.evaluate Real.sqrt 2 2 [-1, 0, 1]) m j l' = if l = l' then 1 else 0 := by
+  have h2 : Real.sqrt 2 * Real.sqrt 2 = 2 := Real.mul_self_sqrt (by norm_num)
+  have h3 : Real.sqrt 3 * Real.sqrt 3 = 3 := Real.mul_self_sqrt (by norm_num)
+  have h32 : Real.sqrt (3 / 2) * Real.sqrt (3 / 2) = 3 / 2 := Real.mul_self_sqrt (by norm_num)
+  have h2' : Real.sqrt 2 ^ 2 = 2 := Real.sq_sqrt (by norm_num)
+  have h3' : Real.sqrt 3 ^ 2 = 3 := Real.sq_sqrt (by norm_num)
+  have h20 : Real.sqrt 2 ≠ 0 := (Real.sqrt_pos.2 (by norm_num)).ne'
+  have e : ∀ m < 2, ∀ j < 3, ∀ l, ent3 (Legendre.evaluate Real.sqrt 2 2 [-1, 0, 1]) m j l
+      = ent (Legendre.row Real.sqrt 2 (([-1, 0, 1] : List ℝ).getD j 0) m) l := by
+    intro m hm j hj l
+    rw [Legendre.ent3_evaluate Real.sqrt 2 2 _ m j l hm (by simpa using hj)]
+    congr 2
+    simp [List.getD_eq_getElem?_getD, List.getElem?_eq_getElem (show j < ([-1, 0, 1] : List ℝ).length by simpa using hj)]
+  have hw0 : ent ([1 / 3, 4 / 3, 1 / 3] : List ℝ) 0 = 1 / 3 := rfl
+  have hw1 : ent ([1 / 3, 4 / 3, 1 / 3] : List ℝ) 1 = 4 / 3 := rfl
+  have hw2 : ent ([1 / 3, 4 / 3, 1 / 3] : List ℝ) 2 = 1 / 3 := rfl
+  have hx0 : ([-1, 0, 1] : List ℝ).getD 0 0 = -1 := rfl
+  have hx1 : ([-1, 0, 1] : List ℝ).getD 1 0 = 0 := rfl
+  have hx2 : ([-1, 0, 1] : List ℝ).getD 2 0 = 1 := rfl
+  have e0 := fun j hj => e 0 (by norm_num) j hj
+  have e1 := fun j hj => e 1 (by norm_num) j hj
+  intro m hm l' hl' hml l hl
+  rw [Finset.sum_range_succ, Finset.sum_range_succ, Finset.sum_range_one]
+  match m, hm, l', hl', l, hl, hml with
+  | 0, _, 0, _, 0, _, _ =>
+    simp only [e0 0 (by norm_num), e0 1 (by norm_num), e0 2 (by norm_num), hw0, hw1, hw2, hx0, hx1, hx2, q00]
+    field_simp; rw [sq, h2]; norm_num
+  | 0, _, 0, _, 1, _, _ =>
+    simp only [e0 0 (by norm_num), e0 1 (by norm_num), e0 2 (by norm_num), hw0, hw1, hw2, hx0, hx1, hx2, q00, q01]
+    field_simp; norm_num
+  | 0, _, 1, _, 0, _, _ =>
+    simp only [e0 0 (by norm_num), e0 1 (by norm_num), e0 2 (by norm_num), hw0, hw1, hw2, hx0, hx1, hx2, q00, q01]
+    field_simp; norm_num
+  | 0, _, 1, _, 1, _, _ =>
+    simp only [e0 0 (by norm_num), e0 1 (by norm_num), e0 2 (by norm_num), hw0, hw1, hw2, hx0, hx1, hx2, q01]
+    field_simp; rw [h3', h2']; norm_num
+  | 1, _, 1, _, 0, _, _ =>
+    simp only [e1 0 (by norm_num), e1 1 (by norm_num), e1 2 (by norm_num), hw0, hw1, hw2, hx0, hx1, hx2, q10, q11]
+    norm_num
+  | 1, _, 1, _, 1, _, _ =>
+    simp only [e1 0 (by norm_num), e1 1 (by norm_num), e1 2 (by norm_num), hw0, hw1, hw2, hx0, hx1, hx2, q11]
+    norm_num
+    field_simp
+    rw [h3', show Real.sqrt 2 ^ 4 = (Real.sqrt 2 ^ 2) ^ 2 by ring, h2']; norm_num
+  | 1, _, 0, _, _, _, h => exact absurd h (by omega)
+  | m + 2, h, _, _, _, _, _ => exact absurd h (by omega)
+  | _, _, l' + 2, h, _, _, _ => exact absurd h (by omega)
+  | _, _, _, _, l + 2, h, _ => exact absurd h (by omega)
+
+/-- non-vacuity of `roundtrip_real_triangle`: `M = L = 2`, `N = 4`, a field with `m ≠ 0` coefficients -/
+example : ∃ b, SH.buildReal Real.cos Real.sin Real.sqrt Real.pi 2 2 4 [-1, 0, 1] [1 / 3, 4 / 3, 1 / 3] = some b ∧
+    ∀ r < 3, ∀ l < 2,
+      ent2 (realAnalysis b 3 3 2 (realSynth b 3 [[2, 5], [0, -3], [0, 7]])) r l
+        = ent2 ([[2, 5], [0, -3], [0, 7]] : List (List ℝ)) r l := by
+  refine ⟨_, rfl, ?_⟩
+  intro r hr l hl
+  refine roundtrip_real_triangle 2 2 4 3 [-1, 0, 1] [1 / 3, 4 / 3, 1 / 3] _ rfl (by norm_num) (by norm_num)
+    rfl rfl legendre_gram_example _ (by simp) ?_ r l hr hl
+  intro r' l' h
+  match r', l', h with
+  | 0, _, h => exact absurd h (by omega)
+  | 1, 0, _ => rfl
+  | 2, 0, _ => rfl
+  | 1, l' + 1, h => exact absurd h (by omega)
+  | 2, l' + 1, h => exact absurd h (by omega)
+  | r' + 3, _, _ => simp [ent2]
+
+end fourier
 
 end Dino.C01
